@@ -234,6 +234,7 @@ EXTRA = {
     "C10": " The closed side reaches every tree build of a measurement: roles theorem over the generated measurement plans (Yaw.C01P.cross_roles / auto_roles), tied by instrumented autocorrelate / crosscorrelate calls.",
     "C06": " Collectives (Yaw.C06C.*): every function that enters a collective on the world communicator is specialised to the root and to a worker rank by the translator; the two collective traces are equal for all of them (code_traces_match), ranks entering equal sequences always complete (matched_completes), differing heads deadlock (mismatch_stuck), a broadcast leaves everybody with the root's value; the call sites executed in the simulated worlds must be the generated ones.",
     "C16": " The state machine is bound to the code by generated flags (reseed rebuilds from the stored seed only, every pass and probe reseeds without argument, one index draw for both attributes); reproducibility is proved after ANY sequence of earlier passes, partial passes and probes (reproducible_after_any_use). Footprint (Yaw.C16Box.*, over the reals, on the generated BoxRandoms formulas): every drawn point lies in the requested window for every window incl. the poles (box_window), the inverse cylinder map undoes the map (cyl_roundtrip), a sky box is the image of exactly the rectangle [a,b] x [sin c, sin d] (preimage_box) whose area equals the spherical area of the box (equal_area: integral of cos dec) - so only the uniformity of Generator.uniform itself remains trusted.",
+    "C15": " Cosmology handling (Yaw.C15Cosmo.*): the decision chains of parse_cosmology / cosmology_to_yaml / yaml_to_cosmology / cosmology_is_equal are regenerated (chain translator over isinstance / None tests) and proved: no value -> default model, name -> predefined model or ConfigError, model object -> that object, anything else raises; only predefined models are written, by name, and read back as themselves (yaml_roundtrip); equality is symmetric, astropy vs user-defined never equal, two user-defined models always equal (documented). Every kind of value is passed to the real functions and to Configuration.create.",
     "C17": " The shape of the code the model abstracts is regenerated (k_algebra): attributes compared by each __eq__ (equal_nan only for sampled data), the methods each container class defines, compatibility on binning AND patches by both base classes, checked addition, scalar-only multiplication. Constructors (Yaw.C17Ctor.*): the shape validation of PatchedCounts / PatchedSumWeights / SampledData / NormalisedCounts / CorrFunc is regenerated as Bool kernels over shapes (index errors count as rejection) and proved to accept EXACTLY the documented shapes; arrays of 0..4 dimensions are given to the real constructors and compared with kernel and spec (this found the 30th repository defect, ff1937b).",
     "C14": " from_3d is invariant under positive scaling (fromVec_scale), hence the spherical mean is the sky position of the direction of the weighted vector sum (mean_direction) and a single point is its own mean.",
     "C18": " Creation plans (Yaw.C18P.*): the three constructors run the same steps; one pass over the input, two exactly in create mode (passes_spec); every column name, the chunk size and the unit flag are forwarded under their own names through constructor, factory and reader classes down to DataReader (reader_forwarding). Probe pass (Yaw.C18Probe.*): the chunk-wise selection loop of get_probe, modelled in Lean, returns exactly the rows at the requested (sorted) indices for EVERY chunking (probe_spec, probe_chunking_free); flags bind the loop and the linspace index list to the source; probes sparser and denser than the chunks are run on every file reader and compared with loop model and spec, with every Parquet row group requested once.",
